@@ -351,6 +351,21 @@ func C13(c *Ctx) {
 		for _, call := range core.Calls(rts) {
 			if core.CalleeName(call) == "sort.Search" {
 				idx = call.Value()
+				continue
+			}
+			// a helper of the ledger that returns the position found by sort.Search
+			if g := core.StaticCallee(call); g != nil && len(g.Blocks) > 0 && core.PkgOf(g) == ledgerPkg && g.Signature.Results().Len() == 1 {
+				fromSearch := false
+				for _, ret := range core.Returns(g) {
+					for _, o := range core.RetOrigins(ret.Results[0]) {
+						if cc, ok := o.V.(*ssa.Call); ok && core.CalleeName(cc) == "sort.Search" {
+							fromSearch = true
+						}
+					}
+				}
+				if fromSearch && call.Value() != nil {
+					idx = call.Value()
+				}
 			}
 		}
 		okRevert, okTrunc := false, false
